@@ -20,6 +20,8 @@ VALS_OVER = [2 ** 63, 2 ** 64 - 2]
 KINDS = [("r", "i"), ("r", "c"), ("r", "f"), ("w", "i"), ("w", "c"), ("w", "f")]
 WIDE_ID = "C07-wide-pid"   # fixed in /repo (596c68b); its signature is kept to name the defect should it come back
 MAX_REPORT = 4   # violation records per monitor kind
+# gRPC status codes failures are injected with (grpcError of the real NodehostAPI produces the first six)
+CODES = ["NotFound", "Unavailable", "DeadlineExceeded", "Canceled", "InvalidArgument", "Unknown", "Internal", "ResourceExhausted", "Aborted"]
 
 
 # ------------------------------------------------------------------ the property, in python
@@ -89,6 +91,26 @@ def wf_events(es):
                     return False
                 st[p] = "dead"
     return True
+
+
+def sequential_reads_ok(es):
+    """For a strictly sequential, failure free history (every invocation immediately followed by its completion): each read returns
+    the value of the latest completed write (nil before the first). Returns None if ok / not applicable, else a description."""
+    if len(es) % 2 or any(e[1] == "f" for e in es):
+        return None
+    last = NIL
+    for i in range(0, len(es), 2):
+        a, b = es[i], es[i + 1]
+        if not (a[1] == "i" and b[1] == "c" and a[0] == b[0] and a[2] == b[2]):
+            return None
+    for i in range(0, len(es), 2):
+        a, b = es[i], es[i + 1]
+        if a[0] == "w":
+            last = a[3]
+        elif b[3] != last:
+            return "sequential run: the read of process %d (event %d) returned %s, the latest completed write is %s" % (
+                b[2], i + 1, "nil" if b[3] == NIL else b[3], "none" if last == NIL else last)
+    return None
 
 
 # ------------------------------------------------------------------ encodings
@@ -282,7 +304,7 @@ def gen_script(rng, with_timeouts):
                 sched("S")
         elif x < 0.33:
             if fails < 4:
-                cmds.append("FS")
+                cmds.append("FS:%s" % rng.choice(CODES))
                 fails += 1
         elif x < 0.66:
             if srv == 0:
@@ -300,7 +322,7 @@ def gen_script(rng, with_timeouts):
                     else:
                         fails += 1
                         dead += 1
-                cmds.append("R:%d:%s" % (rng.randrange(8), mode))
+                cmds.append("R:%d:%s" % (rng.randrange(8), mode) + ("" if mode == "ok" else ":" + rng.choice(CODES)))
             srv -= 1
             gate += 1
         else:
@@ -354,7 +376,9 @@ def analyse_proto(b):
         seq.append(("ev", evs[emitted]))
         emitted += 1
     st, lastw, readval, hobs, fail = {}, 0, {}, [], None
-    stats = {"ops": 0, "failed": 0, "timeouts": 0, "late_effects": 0, "gates": 0, "conn_failures": 0}
+    applied = {}    # process -> the register applied its current write
+    stats = {"ops": 0, "failed": 0, "timeouts": 0, "late_effects": 0, "gates": 0, "conn_failures": 0, "not_applied": 0}
+    notes = []
 
     def bad(msg, pos):
         nonlocal fail
@@ -377,6 +401,7 @@ def analyse_proto(b):
                 elif v != 0:
                     bad("read invocation carries a value", pos)
                 st[p] = ("invoked", t, v)
+                applied[p] = False
             elif r == "c":
                 if s[0] != "returned" or s[3] != "ok" or s[1] != t:
                     bad("process %d: completion recorded without a returned successful %s rpc (state %s)" % (p, t, s[0]), pos)
@@ -400,8 +425,19 @@ def analyse_proto(b):
                     hobs.append("HStart %d" % p)
                 elif s[0] != "started":
                     bad("process %d: rpc %s started without a recorded invocation (state %s)" % (p, x[2], s[0]), pos)
+            elif what in ("dedup", "rejected"):
+                # the register (dragonboat session semantics) did not apply the proposal: its client session / series id
+                # was used before (at-most-once cache) or is unknown
+                stats["not_applied"] += 1
+                hobs_note = "process %s: write of %s was %s by the register without being applied (%s): the proposal carried a client session " \
+                            "series id that had been used before" % (x[1], x[3], "answered from the at-most-once response cache" if what == "dedup" else "rejected",
+                                                                     " ".join(x[4:]))
+                notes.append((pos, int(x[1]), hobs_note))
             elif what == "effect":
                 p = int(x[1])
+                if x[2] == "w":
+                    applied[p] = True
+                hobs.append("HEffect %d" % p)
                 if x[2] == "r":
                     readval[p] = NIL if x[3] == "nil" else int(x[3])
                 s = st.get(p, ("ready",))
@@ -416,6 +452,10 @@ def analyse_proto(b):
                     st[p] = ("returned", s[1], s[2], "err", None)
                     hobs.append("HRet %d RErr" % p)
                 elif m in ("Propose", "Read"):
+                    if m == "Propose" and not applied.get(p):
+                        why = [n for (_, q, n) in notes if q == p]
+                        bad("process %d: the write of %s was acknowledged by the register service but never applied: the recorded completion is not "
+                            "a faithful account%s" % (p, s[2], (" — " + why[-1]) if why else ""), pos)
                     rv = readval.get(p, NIL) if m == "Read" else 0
                     st[p] = ("returned", s[1], s[2], "ok", rv)
                     hobs.append("HRet %d (ROk %d)" % (p, rv))
@@ -563,6 +603,24 @@ def run(ck):
         pcases.append((2, 2, ["SH", "R:0:erreff", "R:0:ok", "S", "G:1", "S", "G:0", "S"]))
         pcases.append((3, 2000, ["S", "S", "S", "R:3:ok", "R:1:err", "G:0", "G:0", "S"]))
         pcases.append((4, 3, ["FS", "ST", "T:0", "T:0", "G:0", "R:0:erreff", "S", "G:0", "S"]))
+        # every status code x failure point (first rpc of a write = GetSession, data rpc before / after the effect), single process:
+        # whatever the code, the process must never be scheduled again (the rounds after the failure must record nothing)
+        for code in CODES:
+            for k in range(4 if quick else 12):
+                sd = rng.randrange(1, 2 ** 31)
+                pcases.append((sd, 1, ["S", "R:0:err:" + code, "G:0", "S", "R:0:ok", "G:0", "S", "R:0:ok", "G:0"]))
+                pcases.append((sd + 1, 1, ["S", "R:0:ok", "G:0", "S", "R:0:erreff:" + code, "G:0", "S", "R:0:ok", "G:0", "S"]))
+                pcases.append((sd + 2, rng.choice([1, 2]), ["FS:" + code, "S", "R:0:ok", "G:0", "R:0:ok", "G:0", "S", "R:0:ok", "G:0", "R:0:ok", "G:0",
+                                                            "S", "R:0:ok", "G:0", "R:0:ok", "G:0"]))
+        # strictly sequential runs of one process (and two processes taking turns) against the register: every read must see the latest
+        # completed write, the run must be accepted by the real checker; the register applies a proposal at most once per session series id
+        for k in range(12 if quick else 120):
+            np = 1 if k % 3 else 2
+            rounds = rng.randrange(6, 14)
+            cmds = []
+            for _ in range(rounds):
+                cmds += ["S"] + ["R:0:ok", "G:0"] * np
+            pcases.append((rng.randrange(1, 2 ** 31), np, cmds))
 
     # ================================================================ part (a)
     lines = ["F %d %s" % (1 if chk else 0, ev_go(es)) for (es, chk, _) in fcases]
@@ -617,7 +675,7 @@ def run(ck):
         ck.violation("protocol executor returned %d results for %d cases" % (len(blocks), len(pcases)), {"kind": "executor", "tail": pres[-20:]}, found_input=False)
         return
     pitems, pitem_case, clean_b = [], [], []   # clean_b: no crash, no well-formedness monitor failure
-    tot = {"ops": 0, "failed": 0, "timeouts": 0, "late_effects": 0, "gates": 0, "conn_failures": 0}
+    tot = {"ops": 0, "failed": 0, "timeouts": 0, "late_effects": 0, "gates": 0, "conn_failures": 0, "not_applied": 0}
     skipped = 0
     for ci, ((sd, np, cmds), b) in enumerate(zip(pcases, blocks)):
         ck.count_case(plines[ci], nontrivial=len(b["events"]) > 0)
@@ -641,6 +699,10 @@ def run(ck):
         elif not wf_events(b["events"]):
             ok = False
             rep.violation("monitor:wf_events", "recorded event list is not well formed", replay)
+        seqfail = sequential_reads_ok(b["events"])
+        if seqfail:
+            ok = False
+            rep.violation("monitor:sequential_reads", "run against the (linearizable) register service: " + seqfail, replay)
         clean_b.append(ok)
         if b["x"] is not None:
             status, text, parsed, chkres = b["x"]
@@ -652,7 +714,7 @@ def run(ck):
                 rt = False
                 rep.violation("monitor:accepts_linearizable", "run against the atomic register stub not accepted by the checker (CheckEvents: %s)" % chkres,
                               dict(replay, events=[list(e) for e in b["events"]], check=True))
-        pitems.append("[rcase %d [%s]]" % (np, "; ".join(hobs)))
+        pitems.append("(let l := [%s] in [rcase %d l; arcase %d l])" % ("; ".join(hobs), np, np))
         pitem_case.append(ci)
     ck.cov["protocol_totals"] = tot
     if skipped:
@@ -692,14 +754,15 @@ def run(ck):
             if clean_a[ci]:
                 mism.append(("format (what the parser reads in each line)" if sub == 0 else "parse", fcases[ci][2], lines[ci][:600], fres[ci][:600], items[ii][:1500]))
     if pitems:
-        bad = coq_false_ix(ck, "c07p", "Base Jepsen Recorder RecorderRun", pitems, 16 if len(pitems) > 600 else 4)
+        bad = coq_false_ix(ck, "c07p", "Base Jepsen Recorder RecorderAtomic RecorderRun", pitems, 16 if len(pitems) > 600 else 4)
         if bad is None:
             return
         n_model += len(pitems)
         for (ii, sub) in bad:
             ci = pitem_case[ii]
             if clean_b[ci]:
-                mism.append(("protocol-trace", "script", plines[ci][:600], ev_go(blocks[ci]["events"])[:600], pitems[ii][:3000]))
+                mism.append(("protocol-trace (recorder model)" if sub == 0 else "protocol-trace (recorder + atomic register model)", "script",
+                             plines[ci][:600], ev_go(blocks[ci]["events"])[:600], pitems[ii][:3000]))
     tm["coq_eval"] = round(time.time() - t0, 1)
     ck.cov["traces_validated_against_impl"] = n_model
     ck.cov["log_text_cases_not_byte_identical_to_model"] = exact_diff
